@@ -594,13 +594,132 @@ pub fn entries_for(mode: Mode) -> Vec<&'static Entry> {
         .collect()
 }
 
+/// `Delay::set_delay()` ("Change the delay"): the block's documented function
+/// with a parameter change, and its verdicts afterwards. Specification: after
+/// `set_delay(d)` the stream is delayed by `d` samples relative to the input,
+/// i.e. raising by k inserts k zeroes at that point and lowering by k drops
+/// that many owed zeroes or, when none are owed, the next k input samples.
+/// The change is made before the first call or at a quiescent point (all input
+/// fed so far has been processed), so the expected output is unambiguous.
+fn delay_retune(mode: Mode, rng: &mut Rng, rep: &mut Report) -> Vec<(String, String, Value)> {
+    use rustradio::block::{Block, BlockRet};
+    use rustradio::blocks::Delay;
+    use rustradio::stream::new_stream;
+    let mut out = Vec::new();
+    let sizes = [0usize, 1, 2, 5, 64, 700, 3000];
+    for _ in 0..40 {
+        let d0 = *rng.pick(&sizes);
+        let d1 = *rng.pick(&sizes);
+        let before_start = rng.chance(1, 2);
+        let n1 = if before_start { 0 } else { *rng.pick(&[0usize, 1, 9, 800]) };
+        let n2 = *rng.pick(&[0usize, 1, 3, 40, 900, 4000]);
+        let replay = json!({"part": "delay-retune", "delay": d0, "new_delay": d1, "before_first_call": before_start, "fed_before": n1, "fed_after": n2});
+        rep.count("delay_retune_cases", 1);
+        let data: Vec<u32> = (0..(n1 + n2) as u32).map(|i| i + 1).collect();
+        // model
+        let mut want: Vec<u32> = Vec::new();
+        let (mut owed, mut skip) = (d0, 0usize);
+        if !before_start {
+            want.extend(std::iter::repeat(0).take(owed));
+            owed = 0;
+            want.extend_from_slice(&data[..n1]);
+        }
+        if d1 > d0 {
+            let k = d1 - d0;
+            let c = std::cmp::min(skip, k);
+            skip -= c;
+            owed += k - c;
+        } else {
+            let k = d0 - d1;
+            let c = std::cmp::min(owed, k);
+            owed -= c;
+            skip += k - c;
+        }
+        want.extend(std::iter::repeat(0).take(owed));
+        want.extend(data[n1..].iter().skip(skip));
+        let res = catch(|| -> Result<(Vec<u32>, Option<String>), String> {
+            let (w, r) = new_stream::<u32>();
+            let (mut blk, o) = Delay::new(r, d0);
+            let mut got: Vec<u32> = Vec::new();
+            let mut spin: Option<String> = None;
+            let feed = |w: &rustradio::stream::WriteStream<u32>, d: &[u32]| {
+                if !d.is_empty() {
+                    let mut wb = w.write_buf().unwrap();
+                    wb.slice()[..d.len()].copy_from_slice(d);
+                    wb.produce(d.len(), &[]);
+                }
+            };
+            let mut run = |blk: &mut Delay<u32>, got: &mut Vec<u32>, spin: &mut Option<String>| -> Result<(), String> {
+                let mut quiet = 0;
+                let mut idle_again = 0;
+                for _ in 0..400 {
+                    let b4 = rec::thread_data_events();
+                    let again = matches!(blk.work().map_err(|e| format!("{e}"))?, BlockRet::Again);
+                    let moved = rec::thread_data_events() != b4;
+                    let (rb, _) = o.read_buf().map_err(|e| format!("{e}"))?;
+                    let n = rb.len();
+                    got.extend_from_slice(rb.slice());
+                    rb.consume(n);
+                    if moved {
+                        quiet = 0;
+                        idle_again = 0;
+                    } else {
+                        quiet += 1;
+                        if again {
+                            idle_again += 1;
+                            if idle_again >= 9 && spin.is_none() {
+                                *spin = Some("9 consecutive work() calls answered Again without consuming or producing".into());
+                            }
+                        }
+                        if quiet >= 12 {
+                            break;
+                        }
+                    }
+                }
+                Ok(())
+            };
+            if !before_start {
+                feed(&w, &data[..n1]);
+                run(&mut blk, &mut got, &mut spin)?;
+            }
+            blk.set_delay(d1);
+            feed(&w, &data[n1..]);
+            run(&mut blk, &mut got, &mut spin)?;
+            drop(w);
+            run(&mut blk, &mut got, &mut spin)?;
+            Ok((got, spin))
+        });
+        match res {
+            Err(p) => out.push((format!("Delay::set_delay|panic|{}", sig_of_msg(&p)), format!("panicked: {p}; case {replay}"), replay)),
+            Ok(Err(e)) => out.push(("Delay::set_delay|error".into(), format!("work() failed: {e}; case {replay}"), replay)),
+            Ok(Ok((got, spin))) => {
+                if mode == Mode::C09 {
+                    if let Some(sp) = spin {
+                        out.push(("Delay::set_delay|idle-spin".into(), format!("{sp}; case {replay}"), replay));
+                    }
+                } else if got != want {
+                    let at = got.iter().zip(&want).take_while(|(a, b)| a == b).count();
+                    out.push((
+                        "Delay::set_delay|output-differs-from-spec".into(),
+                        format!("{} samples out, specification {}; first difference at {at}: got {:?} want {:?}; case {replay}", got.len(), want.len(), got.get(at), want.get(at)),
+                        replay,
+                    ));
+                } else {
+                    rep.count("delay_retune_outputs_equal_spec", 1);
+                }
+            }
+        }
+    }
+    out
+}
+
 pub fn main(opts: &Opts, mode: Mode) -> Report {
     let prop = mode.id();
     let mut rep = Report::new(prop);
     rep.rule = match mode {
         Mode::C08 => "per case: one library block x seeded parameters x seeded input (0..3 stream capacities) x seeded adversarial drip-feed schedule (feed 1..all, work 1..4, drain 0..all; phases trickle/small/bulk/output-kept-full) on 1-4 page streams; output compared bit-for-bit with a one-shot run on default streams, prefix checked at every drain; in a third of the scheduled calls the harness also acts as the concurrently running neighbour blocks inside the call (drains an output / feeds an input at the stream operations' yield points); distinct = (block, input situation, output situation, verdict, named stream) combinations visited by work() calls".into(),
-        Mode::C09 => "the C08 catalogue and schedules, and in a third of the scheduled calls the harness also acts as the neighbouring blocks *inside* the call: at the yield points of the stream operations (no lock held) it drains an output or feeds an input, as concurrently running neighbours do under MTGraph; every work() call is observed through the stream hooks: offered vs moved per stream (with activity inside the call: every commit against the window the block was actually handed), handle counts after return, stream named by a wait verdict (identified with a non-blocking wait(0) probe); after a wait verdict the harness satisfies exactly that request and demands progress or a changed verdict within 3 calls; Again without movement is re-called 8 times; after the inputs ended retirement is demanded within 8 calls; distinct = (block, input situation, output situation, verdict, named stream)".into(),
-        Mode::C10 => "per case: block x seeded parameters x seeded input; output of the one-shot run and of the chunked run compared with an executable specification written from the documentation; in a third of the scheduled calls the harness also acts as the concurrently running neighbour blocks inside the call (drains an output / feeds an input at the stream operations' yield points); distinct = (block, situation, verdict) as in C08".into(),
+        Mode::C09 => "the C08 catalogue and schedules, and in a third of the scheduled calls the harness also acts as the neighbouring blocks *inside* the call: at the yield points of the stream operations (no lock held) it drains an output or feeds an input, as concurrently running neighbours do under MTGraph; every work() call is observed through the stream hooks: offered vs moved per stream (with activity inside the call: every commit against the window the block was actually handed), handle counts after return, stream named by a wait verdict (identified with a non-blocking wait(0) probe); after a wait verdict the harness satisfies exactly that request and demands progress or a changed verdict within 3 calls; Again without movement is re-called 8 times; after the inputs ended retirement is demanded within 8 calls; plus Delay::set_delay() scenarios (delay changed before the first call or at a quiescent point, input ending inside a pending skip): no idle spin; distinct = (block, input situation, output situation, verdict, named stream)".into(),
+        Mode::C10 => "per case: block x seeded parameters x seeded input; output of the one-shot run and of the chunked run compared with an executable specification written from the documentation (for Delay also with set_delay() before the first call or at a quiescent point); in a third of the scheduled calls the harness also acts as the concurrently running neighbour blocks inside the call (drains an output / feeds an input at the stream operations' yield points); distinct = (block, situation, verdict) as in C08".into(),
         Mode::C12 => "per case: block x parameters x input carrying uniquely keyed tags clustered at likely split points x drip-feed schedule; the multiset of (key, value, absolute output index) observed at the output compared with the expected mapping; in a third of the scheduled calls the harness also acts as the concurrently running neighbour blocks inside the call (drains an output / feeds an input at the stream operations' yield points); distinct as in C08".into(),
     };
     rep.assume("the harness plays both neighbours from one thread; reference run = same block constructor on default-size streams with all input delivered at once");
@@ -620,6 +739,14 @@ pub fn main(opts: &Opts, mode: Mode) -> Report {
         return rep;
     }
 
+    if (mode == Mode::C09 || mode == Mode::C10) && opts.val("entry").is_none() {
+        rec::install(true);
+        let mut r2 = Rng::new(opts.shard_seed() ^ 0xDE1A7);
+        for (class, detail, replay) in delay_retune(mode, &mut r2, &mut rep) {
+            rep.violation(format!("{prop}|{class}"), detail, replay);
+        }
+        rec::clear();
+    }
     let only = opts.val("entry");
     let entries: Vec<&Entry> = entries_for(mode).into_iter().filter(|e| only.as_deref().map(|o| o == e.name).unwrap_or(true)).collect();
     let per_entry = opts.budget(16 * 60, 16 * 2500) as usize; // cases per entry per shard
